@@ -100,6 +100,16 @@ func inputs(thorough bool) []input {
 		in = append(in, input{fmt.Sprintf("over-big-script-%d", n),
 			strings.Repeat("SELECT a, -b FROM t LEFT JOIN u ON t.a = u.a WHERE c IS NOT NULL GROUP BY a, b ORDER BY a DESC;\n", n/24+1)})
 	}
+	// the token limit at the boundary (MaxTokens-1 .. MaxTokens+2 tokens): the context-aware tokenizing loop is a copy of the
+	// context-free one and carries its own copy of the limit test; only the entry poll and the never-firing context are run
+	for _, d := range []int{-1, 0, 1, 2} {
+		n := tokenizer.MaxTokens + d
+		sql := "SELECT 1" + strings.Repeat(",1", n/2-1)
+		if n%2 == 1 {
+			sql += " x"
+		}
+		in = append(in, input{fmt.Sprintf("over-token-boundary%+d", d), sql})
+	}
 	// limit violations (huge inputs: only the polls 0, 1, 2, P/2, P-2, P-1, P are fired): the dedicated limit error must not take precedence over a context that is already done
 	in = append(in, input{"over-size-limit", "SELECT 1 " + strings.Repeat(" ", tokenizer.MaxInputSize)})
 	if thorough {
@@ -313,7 +323,8 @@ func Check() *common.Check {
 		Level: "fault_enumeration",
 		// every case is recorded before it runs: a fatal error or a hang of the worker is attributed to it
 		CrashSafe: true,
-		Rule: "(every fault point also with two other kinds of context - one cancelled with a cause of the caller's own, one hand-written around a live standard context - except for the clause-option inputs) for each input (one statement per poll-site context: plain, CTE, nested CTE, CASE, scalar/IN/EXISTS/quantified sub-query, derived table, JOIN ON, set operation, function argument, BETWEEN/IN/LIKE, array index, INSERT…SELECT, DML, script, invalid, 250- and 1000-token lists, statements and scripts of about 300 / 1030 / 2060 / 5000 tokens with two-word keywords all along (sparse polls), 26 lexical layouts, every clause option of sqlgen, an input one byte over the size limit (thorough: one over the token limit; polls 0-2, P/2, P-2..P only); " +
+		MemLimit:  8 << 30, // the token-limit boundary inputs are trees of a million tokens
+		Rule: "(every fault point also with two other kinds of context - one cancelled with a cause of the caller's own, one hand-written around a live standard context - except for the clause-option inputs) for each input (one statement per poll-site context: plain, CTE, nested CTE, CASE, scalar/IN/EXISTS/quantified sub-query, derived table, JOIN ON, set operation, function argument, BETWEEN/IN/LIKE, array index, INSERT…SELECT, DML, script, invalid, 250- and 1000-token lists, statements and scripts of about 300 / 1030 / 2060 / 5000 tokens with two-word keywords all along (sparse polls), 26 lexical layouts, every clause option of sqlgen, inputs of MaxTokens-1 .. MaxTokens+2 tokens (entry poll and never-firing context only), an input one byte over the size limit (thorough: one over the token limit; polls 0-2, P/2, P-2..P only); " +
 			"thorough adds comments, empty input, tokenizer error, MERGE, CREATE TABLE, window frame, 2500 tokens and every expression hole of sqlgen.Holes() filled with a nested expression) and each of gosqlx.ParseWithContext, Tokenizer.TokenizeContext, Parser.ParseContextFromModelTokens: " +
 			"gosqlx.ParseWithTimeout with timeouts 0, -1ns, -1ms, -1h (expired at entry) and 1h (never fires) on every input; " +
 			"P = polls of ctx.Err() in an undisturbed run is measured, then one case per k in 0..P and per kind in {Canceled, DeadlineExceeded} with a context that reports done from its (k+1)-th poll on; " +
@@ -371,6 +382,9 @@ func Check() *common.Check {
 						if strings.HasPrefix(in.fam, "over-") && !(k <= 2 || k >= P-2 || k == P/2) {
 							continue
 						}
+						if strings.HasPrefix(in.fam, "over-token-boundary") && !(k == 0 || k == P) {
+							continue
+						}
 						for _, kind := range kinds {
 							k, kind := k, kind
 							key := fmt.Sprintf("%s|%s|k=%d/%d|%s", en.name, in.fam, k, P, kindName(kind))
@@ -386,7 +400,7 @@ func Check() *common.Check {
 						}
 						// other kinds of context: what counts is what Err() says - a context cancelled with a cause of the
 						// caller's own still answers Canceled, and a hand-written context may wrap a standard one that is live
-						if strings.HasPrefix(in.fam, "clause:") || strings.HasPrefix(in.fam, "hole:") {
+						if strings.HasPrefix(in.fam, "clause:") || strings.HasPrefix(in.fam, "hole:") || strings.HasPrefix(in.fam, "over-token-boundary") {
 							continue
 						}
 						for _, fl := range []struct {
@@ -461,6 +475,9 @@ func runCase(c *common.Ctx, en entry, in input, k, P int, kind error, flavour st
 		}
 	}
 	// residue: what the call used must answer like new (each probe on its own re-execution)
+	if strings.HasPrefix(in.fam, "over-token-boundary") && nres > 1 {
+		nres = 1 // a million-token input: one probe, no re-executions
+	}
 	for i := 0; i < nres; i++ {
 		var name, got, want string
 		if i == 0 {
